@@ -691,6 +691,24 @@ def _run_child(plan):
     device = EntropyDevice(plan["device_key"])
     target = file_arg(req["file_state"]) if req.get("file_state") else None
     inj = _Injector(plan, vfs, target)
+    # BYSTANDERS: in half of the runs other people's files sit next to the requested path under the names programs
+    # conventionally use for scratch / backup / lock files of that path. "An existing file is never overwritten"
+    # covers them too: a fixed scratch name derived from the target must not destroy what is already there.
+    bystanders = []
+    if target is not None and plan["seed"] % 2 == 0 and req.get("file_state") in ("new", "new_dotdot", "via_linkdir",
+                                                                                 "dangling"):
+        vfs.actor = "pre"
+        dn, bn = os.path.split(target)
+        for nm in (target + ".tmp", target + "~", target + ".bak", target + ".new", target + ".part", target + ".lock",
+                   target + ".swp", target + ".old", target + ".orig", target + ".temp", target + ".tmp~",
+                   os.path.join(dn, "." + bn + ".tmp"), os.path.join(dn, "." + bn + ".swp"),
+                   os.path.join(dn, "." + bn + ".lock"), os.path.join(dn, "." + bn), os.path.join(dn, "#" + bn + "#"),
+                   os.path.join(dn, bn.rsplit(".", 1)[0] + ".tmp"), os.path.join(dn, "tmp"), os.path.join(dn, "temp")):
+            try:
+                vfs.put_file(nm, SENTINEL_PRE)
+                bystanders.append(nm)
+            except OSError:
+                pass
     vfs.on_call = inj.boundary
     f0 = vfs.snapshot()
     vfs.install()
@@ -966,6 +984,7 @@ def _run_child(plan):
         "invalid_but_served": int(bool(plan["expected_invalid"]) and status == 0),
         "env_vars_read": sorted(k_ for k_ in device.env_reads if k_ not in ENV_IGNORED and not k_.startswith("PYTHON")),
         "env_replay": int(bool(plan.get("env"))),
+        "runs_with_bystander_files": int(bool(bystanders)),
     }
     stats.update(stats_extra)
     facts = {"status": status, "stdout_sha": core.digest(out), "stderr_sha": core.digest(err),
